@@ -81,17 +81,37 @@ def main(inp, outp):
 
     api_mismatch = []
     scheme = job.get("scheme", 0)
+    import signal
+
+    class Hang(Exception):
+        pass
+
+    def _alarm(signum, frame):
+        raise Hang()
+    signal.signal(signal.SIGALRM, _alarm)
     for hist in job["hists"]:
         nodes = [Node(nm) for nm in names_for(n, scheme)]
         cur = intern(project(nodes), [])
+        hung = False
         for j, (a, b) in enumerate(hist):
-            ret = nodes[a - 1] + nodes[b - 1]
+            # a link that never returns (a table update that never stabilises) is reported, not waited for
+            signal.alarm(20)
+            try:
+                ret = nodes[a - 1] + nodes[b - 1]
+            except Hang:
+                api_mismatch.append({"hist": hist[: j + 1], "what": f"linking {a} + {b} does not terminate (20 s)"})
+                hung = True
+                break
+            finally:
+                signal.alarm(0)
             if ret is not nodes[b - 1]:
                 api_mismatch.append({"hist": hist[: j + 1], "what": "a + b did not return b"})
             p = project(nodes)
             nxt = intern(p, hist[: j + 1])
             steps.add((cur, nxt, a, b))
             cur = nxt
+        if hung:
+            continue
         # the public API must agree with the projected tables (path follows next hops)
         view = api_view(nodes)
         for a in range(n):
